@@ -1135,8 +1135,11 @@ static void valueFlowImpossibleValues(TokenList& tokenList, const Settings& sett
                 setTokenValue(tok, std::move(value), settings);
             }
 
-        } else if (Token::simpleMatch(tok, "%") && tok->astOperand2() && tok->astOperand2()->hasKnownIntValue()) {
-            ValueFlow::Value value{tok->astOperand2()->getKnownIntValue()};
+        } else if (Token::simpleMatch(tok, "%") && tok->astOperand2() && tok->astOperand2()->hasKnownIntValue() &&
+                   tok->astOperand2()->getKnownIntValue() > -std::numeric_limits<MathLib::bigint>::max()) {
+            // the magnitude of x % N is less than the magnitude of N
+            const MathLib::bigint divisor = tok->astOperand2()->getKnownIntValue();
+            ValueFlow::Value value{divisor < 0 ? -divisor : divisor};
             value.bound = ValueFlow::Value::Bound::Lower;
             value.setImpossible();
             setTokenValue(tok, std::move(value), settings);
